@@ -67,6 +67,16 @@ def extract(prog, timeout_ms=60000):
                 return err(Int(r, 'usize'))
             raise Unsupported('atomic %s on the holder' % kind)
 
+        def swap_stub(ex_, args, callee):
+            from .stubs import ordering_name
+            r = ex_.fresh('rv', 64)
+            c = args[1].concrete()
+            if c is None:
+                raise Unsupported('swap of a non-constant into the state word')
+            ex_.evs.append(Ev('RMW', 'state', ordering_name(args[2]), c, r))
+            return Int(r, 'usize')
+        ex.stubs['Atomic::swap'] = swap_stub
+
         def entry(ex, call=call):
             ex.evs = []
             ex.atomic_hook = hook
@@ -281,6 +291,18 @@ class Execution:
         for r in evs:
             if r['kind'] == 'NAR' and r.get('callname') == 'get':
                 bad.append(z3.And(r['active'], z3.Not(z3.Or(*[z3.And(w['active'], self.hb[w['id']][r['id']]) for w in naw])) if naw else r['active']))
+        return z3.Or(*bad) if bad else z3.BoolVal(False)
+
+    def unset_again(self):
+        """a read of the state word that happens-after a completed set but does not see COMPLETE (a later set disturbed the holder)"""
+        evs = self.events
+        stores = [e for e in evs if e['kind'] in ('W', 'RMW') and e['loc'] == 'state' and not e.get('init') and e.get('wval') is not None
+                  and z3.is_true(z3.simplify(e['wval'] == 2))]
+        bad = []
+        for r in evs:
+            if r['kind'] in ('R', 'RMW') and r['loc'] == 'state' and r.get('callname') in ('get', 'is_set'):
+                for w in stores:
+                    bad.append(z3.And(w['active'], r['active'], self.hb[w['id']][r['id']], r['rval'] != 2))
         return z3.Or(*bad) if bad else z3.BoolVal(False)
 
     def premature_set(self):
